@@ -224,6 +224,13 @@ Lemma t_C10_le_max_packet_size : forall plan hdr pnLen plen udpMin maxSize lf pl
   dl <= maxSize.
 Proof. exact append_le_max. Qed.
 
+Lemma t_C10_udp_min_excess : forall cl hdr pnLen plen udpMin maxSize,
+  hdr + plen + 16 <= 1452 -> hdr + plen + 16 <= maxSize ->
+  let mn := Z.min (if udpMin =? 0 then 1200 else udpMin) 1452 in
+  exists dl, appendInitial (cl, 0) hdr pnLen plen udpMin = AppOk (pnLen + plen + 16) (hdr + plen + 16) dl false /\
+             (maxSize < dl <-> maxSize < mn) /\ (maxSize < dl -> dl = mn).
+Proof. exact udp_min_excess. Qed.
+
 Lemma t_C10_le_max_packet_size_refuted :
   (exists lf, appendInitial (0, 0) 22 1 516 1357 = AppOk lf 554 1357 false) /\
   flight (wcfg BEx [] 1 [] 0) 1241 [1300] = [DG 1 1 19 [(0, 1241)] 1317 1335 1335 1 false].
